@@ -41,6 +41,45 @@ use self::builtins::symbol::WellKnownSymbols;
 
 // Re-export Guarded from value module - see value.rs for documentation
 
+/// Verification hook (H3, compiled only with --cfg tsrun_verif): work done inside one host step.
+#[cfg(tsrun_verif)]
+pub mod verif {
+    extern crate std;
+    use std::cell::Cell;
+    std::thread_local! {
+        static INSTR: Cell<u64> = const { Cell::new(0) };
+        static DEPTH: Cell<u32> = const { Cell::new(0) };
+        static DEPTH_MAX: Cell<u32> = const { Cell::new(0) };
+    }
+    pub(crate) fn count_instruction() {
+        INSTR.with(|c| c.set(c.get() + 1));
+    }
+    /// Marks one activation of `BytecodeVM::run` (a nested, uninterruptible run on the native stack).
+    pub(crate) struct ReentryGuard;
+    impl ReentryGuard {
+        pub(crate) fn enter() -> Self {
+            DEPTH.with(|d| {
+                d.set(d.get() + 1);
+                DEPTH_MAX.with(|m| {
+                    if d.get() > m.get() {
+                        m.set(d.get())
+                    }
+                });
+            });
+            ReentryGuard
+        }
+    }
+    impl Drop for ReentryGuard {
+        fn drop(&mut self) {
+            DEPTH.with(|d| d.set(d.get().saturating_sub(1)));
+        }
+    }
+    /// (VM instructions executed, maximum nested-run depth) since the last call; resets both.
+    pub fn take_step_counters() -> (u64, u32) {
+        (INSTR.with(|c| c.replace(0)), DEPTH_MAX.with(|m| m.replace(0)))
+    }
+}
+
 /// A stack frame for tracking call stack
 #[derive(Debug, Clone)]
 pub struct StackFrame {
